@@ -268,8 +268,9 @@ class ModelApiHarness(Harness):
       args = {"a": kind(a), "b": kind(b), "b_is_root_of_a": b is a.root() and b is not a}
       res, exc = call(ex, a.push_child, b)
     elif op == "push_children":
-      b = E[ex.choice("b", n)]
-      c = E[ex.choice("c", n)]
+      ib = ex.choice("b", n)
+      b = E[ib]
+      c = E[(ib + [1, 2, 0][ex.choice("c", 3)]) % n]   # the next two elements, or the same element twice
       res, exc = call(ex, a.push_children, [b, c])
       args = {"a": kind(a), "b": kind(b), "c": kind(c)}
     elif op == "remove":
